@@ -1,22 +1,7 @@
 //! `RefExpr` — the checker's own AST mirroring the public combinators of
 //! `midnight_circuits::parsing::regex::RegexInstructions`, with
 //!  * `to_regex()`   : builds the real `Regex` through the public API only;
-//!  * a reference semantics by Brzozowski derivatives over *marked letters* (a letter is a pair
-//!    (byte class, marker)), normalised modulo associativity / commutativity / idempotence of
-//!    union, so that the derivative closure is a finite automaton (`RefAut`).
-//!
-//! Semantics of an expression = a set of marked words (sequences of (byte, marker)).
-//!  * `byte_from(l)`            : one letter (b, 0), b in l
-//!  * `cat`, `union`            : as usual
-//!  * `inter`                   : two marked words with the same bytes are joined position-wise;
-//!                                markers m1, m2 are compatible iff m1 == m2 or one of them is 0,
-//!                                and the join carries max(m1, m2) (doc of `RegexInstructions::inter`)
-//!  * `neg(r)` (r marker-free)  : every *unmarked* word that is not in r
-//!  * `minus(r, s)`             : `inter(r, neg(s))`
-//!  * `non_empty_list` / `list` : 1.. / 0.. copies
-//!  * `mark_bytes(r, S, m)`     : every word of r with the marker of every byte of S overwritten by m
-
-use std::collections::{BTreeSet, HashMap};
+//!  * the reference semantics lives in `kern.rs`.
 
 use midnight_circuits::parsing::regex::{Regex, RegexInstructions};
 
@@ -106,6 +91,12 @@ pub enum RefExpr {
     SpacedSepAtMost(Box<RefExpr>, usize, Box<RefExpr>),
     /// `digit()`
     Digit,
+    /// `utf8_cps()`
+    Utf8Cps,
+    /// `utf8()`
+    Utf8,
+    /// `json_string()`
+    JsonString,
 }
 
 pub const BLANKS: [u8; 3] = [b' ', b'\t', b'\n'];
@@ -175,6 +166,9 @@ impl RefExpr {
             SpacedSepRepeat(..) => "spaced_separated_repeat",
             SpacedSepAtMost(..) => "spaced_separated_repeat_at_most",
             Digit => "digit",
+            Utf8Cps => "utf8_cps",
+            Utf8 => "utf8",
+            JsonString => "json_string",
         }
     }
 
@@ -236,13 +230,16 @@ impl RefExpr {
             SpacedSepRepeat(r, n, s) => format!("spseprep{n}({},{})", r.show(), s.show()),
             SpacedSepAtMost(r, n, s) => format!("spsepatmost{n}({},{})", r.show(), s.show()),
             Digit => "digit".into(),
+            Utf8Cps => "utf8_cps".into(),
+            Utf8 => "utf8".into(),
+            JsonString => "json_string".into(),
         }
     }
 
     pub fn children(&self) -> Vec<&RefExpr> {
         use RefExpr::*;
         match self {
-            Bytes(_) | NotBytes(_) | AnyByte | Eps | Empty | Any | Word(_) | Blanks | BlanksStrict | OneBlank | Digit => vec![],
+            Bytes(_) | NotBytes(_) | AnyByte | Eps | Empty | Any | Word(_) | Blanks | BlanksStrict | OneBlank | Digit | Utf8Cps | Utf8 | JsonString => vec![],
             Cat(l) | Union(l) | Inter(l) | SpacedCat(l) => l.iter().collect(),
             Neg(r) | Star(r) | Plus(r) | Opt(r) | Repeat(r, _) | AtMost(r, _) | MarkBytes(r, ..) | MarkFn(r, _)
             | ReplaceMarkers(r, _) | SpacedList(r) | SpacedNeList(r) | SpacedRepeat(r, _) | SpacedAtMost(r, _) => vec![r],
@@ -271,75 +268,6 @@ impl RefExpr {
 
     pub fn size(&self) -> usize {
         1 + self.children().iter().map(|e| e.size()).sum::<usize>()
-    }
-
-    pub fn contains_complement(&self) -> bool {
-        matches!(self, RefExpr::Neg(_) | RefExpr::Minus(..)) || self.children().iter().any(|c| c.contains_complement())
-    }
-
-    /// The set of letters (byte, marker) that syntactically occur in the expression — the model of
-    /// `Regex::contains_markers` (which decides whether `neg` panics).
-    pub fn letters(&self) -> BTreeSet<(u8, Marker)> {
-        use RefExpr::*;
-        let all = |f: &dyn Fn(u8) -> bool| -> BTreeSet<(u8, Marker)> { (0..=255u8).filter(|b| f(*b)).map(|b| (b, 0)).collect() };
-        match self {
-            Bytes(v) => v.iter().map(|b| (*b, 0)).collect(),
-            NotBytes(v) => all(&|b| !v.contains(&b)),
-            AnyByte | Any => all(&|_| true),
-            Eps | Empty => BTreeSet::new(),
-            Word(w) => w.iter().map(|b| (*b, 0)).collect(),
-            Blanks | BlanksStrict | OneBlank => BLANKS.iter().map(|b| (*b, 0)).collect(),
-            Digit => (b'0'..=b'9').map(|b| (b, 0)).collect(),
-            MarkBytes(r, bytes, m) => r.letters().into_iter().map(|(b, k)| if bytes.contains(&b) { (b, *m) } else { (b, k) }).collect(),
-            MarkFn(r, t) => r
-                .letters()
-                .into_iter()
-                .map(|(b, k)| match t.iter().find(|(x, _)| *x == b) {
-                    Some((_, m)) => (b, *m),
-                    None => (b, k),
-                })
-                .collect(),
-            ReplaceMarkers(r, t) => r
-                .letters()
-                .into_iter()
-                .map(|(b, k)| match t.iter().find(|(x, _)| *x == k) {
-                    Some((_, m)) => (b, *m),
-                    None => (b, k),
-                })
-                .collect(),
-            // the spaced variants add unmarked blanks
-            SpacedCat(_) | SpacedList(_) | SpacedNeList(_) | SpacedTerminated(..) | SpacedDelimited(..) | SpacedSepList(..)
-            | SpacedSepNeList(..) | SpacedSepCat(..) | SpacedRepeat(..) | SpacedAtMost(..) | SpacedSepRepeat(..) | SpacedSepAtMost(..) => {
-                let mut s: BTreeSet<(u8, Marker)> = BLANKS.iter().map(|b| (*b, 0)).collect();
-                for c in self.children() {
-                    s.extend(c.letters());
-                }
-                s
-            }
-            _ => {
-                let mut s = BTreeSet::new();
-                for c in self.children() {
-                    s.extend(c.letters());
-                }
-                s
-            }
-        }
-    }
-
-    pub fn has_markers(&self) -> bool {
-        self.letters().iter().any(|(_, m)| *m != 0)
-    }
-
-    /// Well-formed = `neg` / the right operand of `minus` never see a marked letter (the library
-    /// asserts this when the complement is built).
-    pub fn well_formed(&self) -> bool {
-        use RefExpr::*;
-        let here = match self {
-            Neg(r) => !r.has_markers(),
-            Minus(_, s) => !s.has_markers(),
-            _ => true,
-        };
-        here && self.children().iter().all(|c| c.well_formed())
     }
 
     /// Builds the real `Regex` through the public API.
@@ -395,782 +323,46 @@ impl RefExpr {
             SpacedSepRepeat(r, n, s) => r.to_regex().spaced_separated_repeat(*n, s.to_regex()),
             SpacedSepAtMost(r, n, s) => r.to_regex().spaced_separated_repeat_at_most(*n, s.to_regex()),
             Digit => Regex::digit(),
-        }
-    }
-
-    /// All byte sets mentioned by the expression (to partition the 256 bytes into classes that the
-    /// expression cannot tell apart).
-    fn byte_sets(&self, out: &mut Vec<[bool; 256]>) {
-        use RefExpr::*;
-        let mut push = |f: &dyn Fn(u8) -> bool| {
-            let mut s = [false; 256];
-            for b in 0..=255u8 {
-                s[b as usize] = f(b);
-            }
-            out.push(s);
-        };
-        match self {
-            Bytes(v) | NotBytes(v) => push(&|b| v.contains(&b)),
-            Word(w) => {
-                for x in w {
-                    push(&|b| b == *x)
-                }
-            }
-            MarkBytes(_, v, _) => push(&|b| v.contains(&b)),
-            MarkFn(_, t) => {
-                for (x, _) in t {
-                    push(&|b| b == *x)
-                }
-            }
-            Blanks | BlanksStrict | OneBlank => push(&|b| BLANKS.contains(&b)),
-            Digit => push(&|b| b.is_ascii_digit()),
-            SpacedCat(_) | SpacedList(_) | SpacedNeList(_) | SpacedTerminated(..) | SpacedDelimited(..) | SpacedSepList(..)
-            | SpacedSepNeList(..) | SpacedSepCat(..) | SpacedRepeat(..) | SpacedAtMost(..) | SpacedSepRepeat(..) | SpacedSepAtMost(..) => {
-                push(&|b| BLANKS.contains(&b))
-            }
-            _ => {}
-        }
-        for c in self.children() {
-            c.byte_sets(out);
-        }
-    }
-
-    fn markers(&self, out: &mut BTreeSet<Marker>) {
-        use RefExpr::*;
-        match self {
-            MarkBytes(_, _, m) => {
-                out.insert(*m);
-            }
-            MarkFn(_, t) => out.extend(t.iter().map(|x| x.1)),
-            ReplaceMarkers(_, t) => out.extend(t.iter().map(|x| x.1)),
-            _ => {}
-        }
-        for c in self.children() {
-            c.markers(out);
+            Utf8Cps => Regex::utf8_cps(),
+            Utf8 => Regex::utf8(),
+            JsonString => Regex::json_string(),
         }
     }
 }
 
-// ---------------------------------------------------------------------------------------------
-// byte classes
-// ---------------------------------------------------------------------------------------------
-
-#[derive(Clone, Debug)]
-pub struct Classes {
-    pub of_byte: [u8; 256],
-    /// smallest byte of each class
-    pub rep: Vec<u8>,
-    pub members: Vec<Vec<u8>>,
-}
-
-impl Classes {
-    pub fn of(e: &RefExpr) -> Classes {
-        let mut sets = vec![];
-        e.byte_sets(&mut sets);
-        let mut sig_to_class: HashMap<Vec<bool>, u8> = HashMap::new();
-        let mut of_byte = [0u8; 256];
-        let mut rep = vec![];
-        let mut members: Vec<Vec<u8>> = vec![];
-        for b in 0..256usize {
-            let sig: Vec<bool> = sets.iter().map(|s| s[b]).collect();
-            let n = sig_to_class.len() as u8;
-            let c = *sig_to_class.entry(sig).or_insert_with(|| {
-                rep.push(b as u8);
-                members.push(vec![]);
-                n
-            });
-            of_byte[b] = c;
-            members[c as usize].push(b as u8);
+/// The *documented* meaning of the derived combinators `utf8_cps`, `utf8` and `json_string`
+/// (doc comments of `RegexInstructions`), written with the primitive combinators.
+pub fn desugar(e: &RefExpr) -> RefExpr {
+    use RefExpr::*;
+    let r = |a: u8, b: u8| Bytes((a..=b).collect());
+    let cont = || r(0x80, 0xBF);
+    let cps = |ascii: RefExpr| {
+        Union(vec![
+            ascii,
+            Cat(vec![r(0xC2, 0xDF), cont()]),
+            Cat(vec![RefExpr::byte(0xE0), r(0xA0, 0xBF), cont()]),
+            Cat(vec![Bytes((0xE1..=0xEC).chain(0xEE..=0xEF).collect()), cont(), cont()]),
+            Cat(vec![RefExpr::byte(0xED), r(0x80, 0x9F), cont()]),
+            Cat(vec![RefExpr::byte(0xF0), r(0x90, 0xBF), cont(), cont()]),
+            Cat(vec![r(0xF1, 0xF3), cont(), cont(), cont()]),
+            Cat(vec![RefExpr::byte(0xF4), r(0x80, 0x8F), cont(), cont()]),
+        ])
+    };
+    match e {
+        Utf8Cps => cps(r(0x00, 0x7F)),
+        Utf8 => Star(Box::new(cps(r(0x00, 0x7F)))),
+        JsonString => {
+            // 0x22 ( [0x20-0x21] | [0x23-0x5B] | [0x5D-0x10FFFF] | \\["\\/bfnrt] | \\u[0-9a-fA-F]{4} )* 0x22,
+            // code points in UTF-8, quoted content marked 1
+            let unescaped = cps(Bytes((0x20..=0x7Fu8).filter(|b| *b != b'"' && *b != b'\\').collect()));
+            let simple = Cat(vec![RefExpr::byte(b'\\'), Bytes(b"\"\\/bfnrt".to_vec())]);
+            let hex = Bytes((b'0'..=b'9').chain(b'a'..=b'f').chain(b'A'..=b'F').collect());
+            let uni = Cat(vec![RefExpr::byte(b'\\'), RefExpr::byte(b'u'), hex.clone(), hex.clone(), hex.clone(), hex]);
+            let content = Star(Box::new(Union(vec![unescaped, simple, uni])));
+            let marked = MarkFn(Box::new(content), (0..=255u8).map(|b| (b, 1)).collect());
+            Cat(vec![RefExpr::byte(b'"'), marked, RefExpr::byte(b'"')])
         }
-        Classes { of_byte, rep, members }
-    }
-    pub fn n(&self) -> usize {
-        self.rep.len()
-    }
-    fn set_of(&self, f: impl Fn(u8) -> bool) -> u64 {
-        // classes are unions of signature-equal bytes, so f is constant on each class
-        let mut m = 0u64;
-        for (c, r) in self.rep.iter().enumerate() {
-            if f(*r) {
-                m |= 1 << c;
-            }
-        }
-        m
+        _ => e.clone(),
     }
 }
 
-// ---------------------------------------------------------------------------------------------
-// core terms, hash-consed
-// ---------------------------------------------------------------------------------------------
-
-type Id = u32;
-/// (class, marker)
-type Letter = (u8, Marker);
-
-#[derive(Clone, Debug, PartialEq, Eq, Hash)]
-enum Node {
-    Empty,
-    Eps,
-    /// one letter out of the set (sorted)
-    Sym(Vec<Letter>),
-    Cat(Id, Id),
-    /// sorted, deduplicated, no nested Alt, no Empty, len >= 2
-    Alt(Vec<Id>),
-    /// marker-unifying intersection; operands ordered
-    And(Id, Id),
-    /// complement within the unmarked words
-    Not(Id),
-    Star(Id),
-    /// relabel: letters whose class is in the mask get marker m
-    Mark(u64, Marker, Id),
-    /// relabel markers through a table
-    Remark(Vec<(Marker, Marker)>, Id),
-}
-
-const EMPTY: Id = 0;
-const EPS: Id = 1;
-
-pub struct Engine {
-    nodes: Vec<Node>,
-    index: HashMap<Node, Id>,
-    nullable: Vec<Option<bool>>,
-    deriv: HashMap<(Id, Letter), Id>,
-    pub classes: Classes,
-    pub markers: Vec<Marker>,
-}
-
-impl Engine {
-    pub fn new(e: &RefExpr) -> Engine {
-        let mut ms = BTreeSet::new();
-        ms.insert(0);
-        e.markers(&mut ms);
-        let mut g = Engine {
-            nodes: vec![],
-            index: HashMap::new(),
-            nullable: vec![],
-            deriv: HashMap::new(),
-            classes: Classes::of(e),
-            markers: ms.into_iter().collect(),
-        };
-        assert_eq!(g.intern(Node::Empty), EMPTY);
-        assert_eq!(g.intern(Node::Eps), EPS);
-        assert!(g.classes.n() <= 64);
-        g
-    }
-
-    fn intern(&mut self, n: Node) -> Id {
-        if let Some(i) = self.index.get(&n) {
-            return *i;
-        }
-        let i = self.nodes.len() as Id;
-        self.nodes.push(n.clone());
-        self.index.insert(n, i);
-        self.nullable.push(None);
-        i
-    }
-
-    fn sym(&mut self, mask: u64, m: Marker) -> Id {
-        let v: Vec<Letter> = (0..self.classes.n() as u8).filter(|c| mask >> c & 1 == 1).map(|c| (c, m)).collect();
-        if v.is_empty() {
-            EMPTY
-        } else {
-            self.intern(Node::Sym(v))
-        }
-    }
-    fn cat(&mut self, a: Id, b: Id) -> Id {
-        if a == EMPTY || b == EMPTY {
-            return EMPTY;
-        }
-        if a == EPS {
-            return b;
-        }
-        if b == EPS {
-            return a;
-        }
-        if let Node::Cat(x, y) = self.nodes[a as usize].clone() {
-            let t = self.cat(y, b);
-            return self.cat(x, t);
-        }
-        self.intern(Node::Cat(a, b))
-    }
-    fn cat_all(&mut self, l: &[Id]) -> Id {
-        let mut acc = EPS;
-        for x in l.iter().rev() {
-            acc = self.cat(*x, acc);
-        }
-        acc
-    }
-    fn alt(&mut self, l: &[Id]) -> Id {
-        let mut s: BTreeSet<Id> = BTreeSet::new();
-        for x in l {
-            match &self.nodes[*x as usize] {
-                Node::Empty => {}
-                Node::Alt(v) => s.extend(v.iter().copied()),
-                _ => {
-                    s.insert(*x);
-                }
-            }
-        }
-        match s.len() {
-            0 => EMPTY,
-            1 => *s.iter().next().unwrap(),
-            _ => self.intern(Node::Alt(s.into_iter().collect())),
-        }
-    }
-    fn and(&mut self, a: Id, b: Id) -> Id {
-        if a == EMPTY || b == EMPTY {
-            return EMPTY;
-        }
-        if a == EPS {
-            return if self.is_nullable(b) { EPS } else { EMPTY };
-        }
-        if b == EPS {
-            return if self.is_nullable(a) { EPS } else { EMPTY };
-        }
-        let (a, b) = if a <= b { (a, b) } else { (b, a) };
-        self.intern(Node::And(a, b))
-    }
-    fn not(&mut self, a: Id) -> Id {
-        self.intern(Node::Not(a))
-    }
-    fn star(&mut self, a: Id) -> Id {
-        if a == EMPTY || a == EPS {
-            return EPS;
-        }
-        if let Node::Star(_) = self.nodes[a as usize] {
-            return a;
-        }
-        self.intern(Node::Star(a))
-    }
-    fn plus(&mut self, a: Id) -> Id {
-        let s = self.star(a);
-        self.cat(a, s)
-    }
-    fn mark(&mut self, mask: u64, m: Marker, a: Id) -> Id {
-        if a == EMPTY || a == EPS {
-            return a;
-        }
-        self.intern(Node::Mark(mask, m, a))
-    }
-    fn remark(&mut self, t: &[(Marker, Marker)], a: Id) -> Id {
-        if a == EMPTY || a == EPS {
-            return a;
-        }
-        self.intern(Node::Remark(t.to_vec(), a))
-    }
-    fn universal(&mut self) -> Id {
-        let all = self.classes.set_of(|_| true);
-        let s = self.sym(all, 0);
-        self.star(s)
-    }
-    fn blanks(&mut self) -> Id {
-        let m = self.classes.set_of(|b| BLANKS.contains(&b));
-        let s = self.sym(m, 0);
-        self.star(s)
-    }
-    fn pow(&mut self, a: Id, n: usize) -> Id {
-        let v = vec![a; n];
-        self.cat_all(&v)
-    }
-    /// r (s r)^*
-    fn sep_ne(&mut self, r: Id, s: Id) -> Id {
-        let sr = self.cat(s, r);
-        let st = self.star(sr);
-        self.cat(r, st)
-    }
-    /// r1 s r2 s ... rn  (epsilon for the empty list)
-    fn sep_cat(&mut self, l: &[Id], s: Id) -> Id {
-        let mut parts = vec![];
-        for (i, x) in l.iter().enumerate() {
-            if i > 0 {
-                parts.push(s);
-            }
-            parts.push(*x);
-        }
-        self.cat_all(&parts)
-    }
-
-    /// Translation of the surface combinators into core terms, following the doc comments of
-    /// `RegexInstructions`.
-    pub fn compile(&mut self, e: &RefExpr) -> Id {
-        use RefExpr::*;
-        match e {
-            Bytes(v) => {
-                let m = self.classes.set_of(|b| v.contains(&b));
-                self.sym(m, 0)
-            }
-            NotBytes(v) => {
-                let m = self.classes.set_of(|b| !v.contains(&b));
-                self.sym(m, 0)
-            }
-            AnyByte => {
-                let m = self.classes.set_of(|_| true);
-                self.sym(m, 0)
-            }
-            Digit => {
-                let m = self.classes.set_of(|b| b.is_ascii_digit());
-                self.sym(m, 0)
-            }
-            OneBlank => {
-                let m = self.classes.set_of(|b| BLANKS.contains(&b));
-                self.sym(m, 0)
-            }
-            Blanks => self.blanks(),
-            BlanksStrict => {
-                let m = self.classes.set_of(|b| BLANKS.contains(&b));
-                let s = self.sym(m, 0);
-                self.plus(s)
-            }
-            Eps => EPS,
-            Empty => EMPTY,
-            Any => self.universal(),
-            Word(w) => {
-                let l: Vec<Id> = w
-                    .iter()
-                    .map(|x| {
-                        let m = self.classes.set_of(|b| b == *x);
-                        self.sym(m, 0)
-                    })
-                    .collect();
-                self.cat_all(&l)
-            }
-            Cat(l) => {
-                let v: Vec<Id> = l.iter().map(|x| self.compile(x)).collect();
-                self.cat_all(&v)
-            }
-            Union(l) => {
-                let v: Vec<Id> = l.iter().map(|x| self.compile(x)).collect();
-                self.alt(&v)
-            }
-            Inter(l) => {
-                let mut acc = self.universal();
-                for x in l {
-                    let c = self.compile(x);
-                    acc = self.and(acc, c);
-                }
-                acc
-            }
-            Neg(r) => {
-                let c = self.compile(r);
-                self.not(c)
-            }
-            Minus(r, s) => {
-                let a = self.compile(r);
-                let b = self.compile(s);
-                let nb = self.not(b);
-                self.and(a, nb)
-            }
-            Star(r) => {
-                let c = self.compile(r);
-                self.star(c)
-            }
-            Plus(r) => {
-                let c = self.compile(r);
-                self.plus(c)
-            }
-            Opt(r) => {
-                let c = self.compile(r);
-                self.alt(&[c, EPS])
-            }
-            Repeat(r, n) => {
-                let c = self.compile(r);
-                self.pow(c, *n)
-            }
-            AtMost(r, n) => {
-                let c = self.compile(r);
-                let v: Vec<Id> = (0..=*n).map(|i| self.pow(c, i)).collect();
-                self.alt(&v)
-            }
-            SepNeList(r, s) => {
-                let (a, b) = (self.compile(r), self.compile(s));
-                self.sep_ne(a, b)
-            }
-            SepList(r, s) => {
-                let (a, b) = (self.compile(r), self.compile(s));
-                let x = self.sep_ne(a, b);
-                self.alt(&[EPS, x])
-            }
-            SepCat(l, s) => {
-                let v: Vec<Id> = l.iter().map(|x| self.compile(x)).collect();
-                let b = self.compile(s);
-                self.sep_cat(&v, b)
-            }
-            SepRepeat(r, n, s) => {
-                let (a, b) = (self.compile(r), self.compile(s));
-                self.sep_cat(&vec![a; *n], b)
-            }
-            SepAtMost(r, n, s) => {
-                let (a, b) = (self.compile(r), self.compile(s));
-                let v: Vec<Id> = (0..=*n).map(|i| self.sep_cat(&vec![a; i], b)).collect();
-                self.alt(&v)
-            }
-            Delimited(r, o, c) => {
-                let (a, b, d) = (self.compile(r), self.compile(o), self.compile(c));
-                self.cat_all(&[b, a, d])
-            }
-            MarkBytes(r, bytes, m) => {
-                let c = self.compile(r);
-                let mask = self.classes.set_of(|b| bytes.contains(&b));
-                self.mark(mask, *m, c)
-            }
-            MarkFn(r, t) => {
-                let mut c = self.compile(r);
-                // disjoint byte sets: the order is irrelevant; group by marker
-                let ms: BTreeSet<Marker> = t.iter().map(|x| x.1).collect();
-                for m in ms {
-                    let mask = self.classes.set_of(|b| t.iter().any(|(x, k)| *x == b && *k == m));
-                    c = self.mark(mask, m, c);
-                }
-                c
-            }
-            ReplaceMarkers(r, t) => {
-                let c = self.compile(r);
-                self.remark(t, c)
-            }
-            SpacedCat(l) => {
-                let v: Vec<Id> = l.iter().map(|x| self.compile(x)).collect();
-                let b = self.blanks();
-                self.sep_cat(&v, b)
-            }
-            SpacedNeList(r) => {
-                let a = self.compile(r);
-                let b = self.blanks();
-                self.sep_ne(a, b)
-            }
-            SpacedList(r) => {
-                let a = self.compile(r);
-                let b = self.blanks();
-                let x = self.sep_ne(a, b);
-                self.alt(&[EPS, x])
-            }
-            SpacedTerminated(r, s) => {
-                let (a, c) = (self.compile(r), self.compile(s));
-                let b = self.blanks();
-                self.cat_all(&[a, b, c])
-            }
-            SpacedDelimited(r, o, c) => {
-                let (a, x, y) = (self.compile(r), self.compile(o), self.compile(c));
-                let b = self.blanks();
-                self.cat_all(&[x, b, a, b, y])
-            }
-            SpacedSepNeList(r, s) => {
-                let (a, x) = (self.compile(r), self.compile(s));
-                let b = self.blanks();
-                let sep = self.cat_all(&[b, x, b]);
-                self.sep_ne(a, sep)
-            }
-            SpacedSepList(r, s) => {
-                let (a, x) = (self.compile(r), self.compile(s));
-                let b = self.blanks();
-                let sep = self.cat_all(&[b, x, b]);
-                let y = self.sep_ne(a, sep);
-                self.alt(&[EPS, y])
-            }
-            SpacedSepCat(l, s) => {
-                let v: Vec<Id> = l.iter().map(|x| self.compile(x)).collect();
-                let x = self.compile(s);
-                let b = self.blanks();
-                let sep = self.cat_all(&[b, x, b]);
-                self.sep_cat(&v, sep)
-            }
-            SpacedRepeat(r, n) => {
-                let a = self.compile(r);
-                let b = self.blanks();
-                self.sep_cat(&vec![a; *n], b)
-            }
-            SpacedAtMost(r, n) => {
-                let a = self.compile(r);
-                let b = self.blanks();
-                let v: Vec<Id> = (0..=*n).map(|i| self.sep_cat(&vec![a; i], b)).collect();
-                self.alt(&v)
-            }
-            SpacedSepRepeat(r, n, s) => {
-                let (a, x) = (self.compile(r), self.compile(s));
-                let b = self.blanks();
-                let sep = self.cat_all(&[b, x, b]);
-                self.sep_cat(&vec![a; *n], sep)
-            }
-            SpacedSepAtMost(r, n, s) => {
-                let (a, x) = (self.compile(r), self.compile(s));
-                let b = self.blanks();
-                let sep = self.cat_all(&[b, x, b]);
-                let v: Vec<Id> = (0..=*n).map(|i| self.sep_cat(&vec![a; i], sep)).collect();
-                self.alt(&v)
-            }
-        }
-    }
-
-    pub fn is_nullable(&mut self, a: Id) -> bool {
-        if let Some(b) = self.nullable[a as usize] {
-            return b;
-        }
-        let r = match self.nodes[a as usize].clone() {
-            Node::Empty | Node::Sym(_) => false,
-            Node::Eps | Node::Star(_) => true,
-            Node::Cat(x, y) => self.is_nullable(x) && self.is_nullable(y),
-            Node::Alt(v) => v.iter().any(|x| self.is_nullable(*x)),
-            Node::And(x, y) => self.is_nullable(x) && self.is_nullable(y),
-            Node::Not(x) => !self.is_nullable(x),
-            Node::Mark(_, _, x) | Node::Remark(_, x) => self.is_nullable(x),
-        };
-        self.nullable[a as usize] = Some(r);
-        r
-    }
-
-    /// Brzozowski derivative with respect to the marked letter (class c, marker m).
-    pub fn derive(&mut self, a: Id, l: Letter) -> Id {
-        if let Some(r) = self.deriv.get(&(a, l)) {
-            return *r;
-        }
-        let (c, m) = l;
-        let r = match self.nodes[a as usize].clone() {
-            Node::Empty | Node::Eps => EMPTY,
-            Node::Sym(v) => {
-                if v.contains(&l) {
-                    EPS
-                } else {
-                    EMPTY
-                }
-            }
-            Node::Cat(x, y) => {
-                let dx = self.derive(x, l);
-                let left = self.cat(dx, y);
-                if self.is_nullable(x) {
-                    let dy = self.derive(y, l);
-                    self.alt(&[left, dy])
-                } else {
-                    left
-                }
-            }
-            Node::Alt(v) => {
-                let d: Vec<Id> = v.iter().map(|x| self.derive(*x, l)).collect();
-                self.alt(&d)
-            }
-            Node::And(x, y) => {
-                if m == 0 {
-                    let (dx, dy) = (self.derive(x, l), self.derive(y, l));
-                    self.and(dx, dy)
-                } else {
-                    let (dxm, dym) = (self.derive(x, l), self.derive(y, l));
-                    let (dx0, dy0) = (self.derive(x, (c, 0)), self.derive(y, (c, 0)));
-                    let t1 = self.and(dxm, dym);
-                    let t2 = self.and(dxm, dy0);
-                    let t3 = self.and(dx0, dym);
-                    self.alt(&[t1, t2, t3])
-                }
-            }
-            Node::Not(x) => {
-                if m == 0 {
-                    let dx = self.derive(x, l);
-                    self.not(dx)
-                } else {
-                    EMPTY
-                }
-            }
-            Node::Star(x) => {
-                let dx = self.derive(x, l);
-                self.cat(dx, a)
-            }
-            Node::Mark(mask, k, x) => {
-                if mask >> c & 1 == 1 {
-                    if m == k {
-                        let ms = self.markers.clone();
-                        let mut d = vec![];
-                        for m2 in ms {
-                            let dx = self.derive(x, (c, m2));
-                            d.push(self.mark(mask, k, dx));
-                        }
-                        self.alt(&d)
-                    } else {
-                        EMPTY
-                    }
-                } else {
-                    let dx = self.derive(x, l);
-                    self.mark(mask, k, dx)
-                }
-            }
-            Node::Remark(t, x) => {
-                // markers m2 with upd(m2) == m
-                let ms = self.markers.clone();
-                let mut d = vec![];
-                for m2 in ms {
-                    let img = t.iter().find(|(a, _)| *a == m2).map(|(_, b)| *b).unwrap_or(m2);
-                    if img == m {
-                        let dx = self.derive(x, (c, m2));
-                        d.push(self.remark(&t, dx));
-                    }
-                }
-                self.alt(&d)
-            }
-        };
-        self.deriv.insert((a, l), r);
-        r
-    }
-}
-
-// ---------------------------------------------------------------------------------------------
-// the reference automaton
-// ---------------------------------------------------------------------------------------------
-
-#[derive(Clone, Debug)]
-pub struct RefAut {
-    pub classes: Classes,
-    pub markers: Vec<Marker>,
-    pub n: usize,
-    /// delta[s][class][marker index]
-    pub delta: Vec<Vec<Vec<u32>>>,
-    pub nullable: Vec<bool>,
-    pub live: Vec<bool>,
-    /// Some((state, class, [markers])) = a live state reachable through live states in which one
-    /// byte class has two live markers: the expression is not output-deterministic.
-    pub non_od: Option<(u32, u8, Vec<Marker>)>,
-    /// for output-deterministic automata: the unique live successor
-    pub succ: Vec<Vec<Option<(Marker, u32)>>>,
-    /// shortest accepted continuation from a live state: (class, marker, next)
-    pub to_accept: Vec<Option<(u8, Marker, u32)>>,
-    pub dist_accept: Vec<u32>,
-}
-
-pub const REF_STATE_CAP: usize = 4000;
-
-impl RefAut {
-    /// `Err(n)` if the derivative closure exceeded the cap (never expected).
-    pub fn build(e: &RefExpr) -> Result<RefAut, usize> {
-        let mut g = Engine::new(e);
-        let root = g.compile(e);
-        let nc = g.classes.n();
-        let ms = g.markers.clone();
-        let mut ids: Vec<Id> = vec![root];
-        let mut num: HashMap<Id, u32> = HashMap::new();
-        num.insert(root, 0);
-        let mut delta: Vec<Vec<Vec<u32>>> = vec![];
-        let mut i = 0;
-        while i < ids.len() {
-            let s = ids[i];
-            let mut row = vec![vec![0u32; ms.len()]; nc];
-            for c in 0..nc {
-                for (mi, m) in ms.iter().enumerate() {
-                    let d = g.derive(s, (c as u8, *m));
-                    let k = match num.get(&d) {
-                        Some(k) => *k,
-                        None => {
-                            let k = ids.len() as u32;
-                            num.insert(d, k);
-                            ids.push(d);
-                            k
-                        }
-                    };
-                    row[c][mi] = k;
-                }
-            }
-            delta.push(row);
-            i += 1;
-            if ids.len() > REF_STATE_CAP {
-                return Err(ids.len());
-            }
-        }
-        let n = ids.len();
-        let nullable: Vec<bool> = ids.iter().map(|s| g.is_nullable(*s)).collect();
-        // co-accessibility (backward from nullable states) with distances
-        let mut rev: Vec<Vec<(u32, u8, usize)>> = vec![vec![]; n];
-        for s in 0..n {
-            for c in 0..nc {
-                for mi in 0..ms.len() {
-                    rev[delta[s][c][mi] as usize].push((s as u32, c as u8, mi));
-                }
-            }
-        }
-        let mut dist = vec![u32::MAX; n];
-        let mut to_accept: Vec<Option<(u8, Marker, u32)>> = vec![None; n];
-        let mut queue: std::collections::VecDeque<u32> = Default::default();
-        for s in 0..n {
-            if nullable[s] {
-                dist[s] = 0;
-                queue.push_back(s as u32);
-            }
-        }
-        while let Some(t) = queue.pop_front() {
-            for (s, c, mi) in &rev[t as usize] {
-                if dist[*s as usize] == u32::MAX {
-                    dist[*s as usize] = dist[t as usize] + 1;
-                    to_accept[*s as usize] = Some((*c, ms[*mi], t));
-                    queue.push_back(*s);
-                }
-            }
-        }
-        let live: Vec<bool> = dist.iter().map(|d| *d != u32::MAX).collect();
-        // output determinism on the part reachable through live states
-        let mut succ: Vec<Vec<Option<(Marker, u32)>>> = vec![vec![None; nc]; n];
-        let mut non_od = None;
-        let mut seen = vec![false; n];
-        let mut stack = vec![];
-        if live[0] {
-            stack.push(0u32);
-            seen[0] = true;
-        }
-        while let Some(s) = stack.pop() {
-            for c in 0..nc {
-                let lm: Vec<(Marker, u32)> = (0..ms.len())
-                    .filter(|mi| live[delta[s as usize][c][*mi] as usize])
-                    .map(|mi| (ms[mi], delta[s as usize][c][mi]))
-                    .collect();
-                if lm.len() > 1 && non_od.is_none() {
-                    non_od = Some((s, c as u8, lm.iter().map(|x| x.0).collect()));
-                }
-                if let Some(x) = lm.first() {
-                    succ[s as usize][c] = Some(*x);
-                }
-                for (_, t) in lm {
-                    if !seen[t as usize] {
-                        seen[t as usize] = true;
-                        stack.push(t);
-                    }
-                }
-            }
-        }
-        Ok(RefAut {
-            classes: g.classes.clone(),
-            markers: ms,
-            n,
-            delta,
-            nullable,
-            live,
-            non_od,
-            succ,
-            to_accept,
-            dist_accept: dist,
-        })
-    }
-
-    /// Runs the (output-deterministic) reference on a word: Some(markers) iff accepted.
-    pub fn run(&self, w: &[u8]) -> Option<Vec<Marker>> {
-        let mut s = 0u32;
-        if !self.live[0] {
-            return None;
-        }
-        let mut out = vec![];
-        for b in w {
-            let c = self.classes.of_byte[*b as usize] as usize;
-            let (m, t) = self.succ[s as usize][c]?;
-            out.push(m);
-            s = t;
-        }
-        if self.nullable[s as usize] {
-            Some(out)
-        } else {
-            None
-        }
-    }
-
-    /// Shortest accepted continuation from a live state (bytes = class representatives).
-    pub fn accept_suffix(&self, mut s: u32) -> (Vec<u8>, Vec<Marker>) {
-        let (mut w, mut ms) = (vec![], vec![]);
-        while self.dist_accept[s as usize] != 0 {
-            let Some((c, m, t)) = self.to_accept[s as usize] else { break };
-            w.push(self.classes.rep[c as usize]);
-            ms.push(m);
-            s = t;
-        }
-        (w, ms)
-    }
-}
